@@ -5,6 +5,7 @@ sorted tree alphabet that the REAL SelectionGraphBuilder emits for a matrix of o
 functions into lean/PpciVerif/Gen/Burg_<target>.lean; Props/C29.lean re-proves `premise` on them.
 Correspondence: every tree handed to TreeSelector.gen during real ir_to_object runs is labelled by the
 Lean model (driver) and the verdicts are compared; every internal error is a failing input."""
+import logging
 import re
 import traceback
 
@@ -44,6 +45,7 @@ ASSUMPTIONS = [
     "a selection tree's cover depends only on node names and on the acceptance results (costs are irrelevant to coverage)",
 ]
 CHECK_WITHOUT_BUILD = False
+logging.getLogger("verifier").setLevel(logging.ERROR)  # "Undefined value is used" warnings of verify_module
 
 TARGETS = {"x86_64": "x86_64", "arm": "arm", "thumb": "arm:thumb", "riscv": "riscv", "rvc": "riscv:rvc"}
 
@@ -68,7 +70,8 @@ def build_module(spec):
     from ppci import ir
     if spec["k"] == "random":
         return random_module(spec)
-    m = ir.Module("m")
+    from ppci.binutils.debuginfo import DebugDb
+    m = ir.Module("m", debug_db=DebugDb())  # like every front-end (mem2reg needs a debug_db to record its phis)
     k = spec["k"]
 
     def fn(ret, params):
@@ -184,6 +187,41 @@ def build_module(spec):
         f, b, (p, q) = fn(None, ["ptr", "ptr"])
         b.add_instruction(ir.CopyBlob(p, q, spec["n"]))
         b.add_instruction(ir.Exit())
+    elif k == "constfold":  # r = <const a> op <const b>  (only the optimizer sees the constants)
+        f, b, _ = fn(spec["ty"], [])
+        x = ir.Const(spec["a"], "x", _ty(spec["ty"]))
+        y = ir.Const(spec["b"], "y", _ty(spec["ty"]))
+        b.add_instruction(x)
+        b.add_instruction(y)
+        r = ir.Binop(x, spec["op"], y, "r", _ty(spec["ty"]))
+        b.add_instruction(r)
+        b.add_instruction(ir.Return(r))
+    elif k == "dupuse":  # a foldable value used in both operand slots of one instruction
+        f, b, (p,) = fn("u32", ["u32"])
+        c = ir.Const(65535, "c", ir.u16)
+        b.add_instruction(c)
+        v = ir.Cast(c, "v", ir.u32)
+        b.add_instruction(v)
+        r = ir.Binop(v, "-", v, "r", ir.u32)
+        b.add_instruction(r)
+        b.add_instruction(ir.Return(r))
+    elif k == "ptrchain":  # (p + c1) + c2 on pointers: the folder's chain rewrite
+        f, b, (pp,) = fn("ptr", ["ptr"])
+        c1, c2 = ir.Const(4, "c1", ir.ptr), ir.Const(8, "c2", ir.ptr)
+        q = ir.Binop(pp, "+", c1, "q", ir.ptr)
+        r = ir.Binop(q, "+", c2, "r", ir.ptr)
+        for i in (c1, c2, q, r, ir.Return(r)):
+            b.add_instruction(i)
+    elif k == "dupcall":  # the same foldable value in two argument slots of a call
+        e = ir.ExternalProcedure("ext", [ir.u32, ir.u32])
+        m.add_external(e)
+        f, b, _ = fn(None, [])
+        c = ir.Const(65535, "c", ir.u16)
+        b.add_instruction(c)
+        v = ir.Cast(c, "v", ir.u32)
+        b.add_instruction(v)
+        b.add_instruction(ir.ProcedureCall(e, [v, v]))
+        b.add_instruction(ir.Exit())
     elif k == "undef":
         f, b, _ = fn(spec["ty"], [])
         r = ir.Undefined("r", _ty(spec["ty"]))
@@ -242,6 +280,18 @@ def matrix(types):
 
 # IR operations irdag cannot translate at all (no tree head): kept out of the alphabet matrix, compiled in the corpus
 NO_HEAD_SPECS = [{"k": "binop", "op": "rol", "ty": "i32"}, {"k": "binop", "op": "ror", "ty": "u32"}]
+
+
+OPT_CRASH_SPECS = [
+    {"k": "dupuse"},
+    {"k": "ptrchain"},
+    {"k": "constfold", "op": "<<", "ty": "i32", "a": 1, "b": -1},
+    {"k": "constfold", "op": ">>", "ty": "i32", "a": 1, "b": -1},
+    {"k": "constfold", "op": "%", "ty": "i32", "a": 7, "b": 0},
+    {"k": "constfold", "op": "/", "ty": "i32", "a": 7, "b": 0},
+    {"k": "constfold", "op": "<<", "ty": "i64", "a": 1, "b": 1 << 62},
+    {"k": "constfold", "op": "/", "ty": "f64", "a": 1.0, "b": 0.0},
+]
 
 
 # ------------------------------------------------------------------------------------------------
@@ -486,13 +536,18 @@ def _head_ty(t, ptr):
 
 
 def random_module(spec):
-    """spec = {k:'random', seed, types:[...], ptr:'U32', avoid:[heads], size:n}"""
+    """spec = {k:'random', seed, types:[...], ptr:'U32', avoid:[heads], size:n, safe:bool}
+    The right operand of / % << >> is always a parameter/load/call result/phi (UB constants crash the constant
+    folder: fixed corpus OPT_CRASH_SPECS).  safe: additionally no instruction uses one value in two operand slots
+    (ir.Value.replace_by cannot handle that: corpus spec `dupuse`)."""
     import random
     from ppci import ir
     rng = random.Random(spec["seed"])
     types, ptr, avoid, size = list(spec["types"]), spec["ptr"], set(spec.get("avoid", [])), spec.get("size", 12)
+    safe = spec.get("safe", True)
     ints = [t for t in types if t[0] in "iu"]
-    m = ir.Module("m")
+    from ppci.binutils.debuginfo import DebugDb
+    m = ir.Module("m", debug_db=DebugDb())
     g = ir.Variable("g", ir.Binding.GLOBAL, 16, 8)
     m.add_variable(g)
     names = iter(f"v{i}" for i in range(100000))
@@ -552,7 +607,20 @@ def random_module(spec):
             a, c = value(b, t, pl), value(b, t, pl)
             if a is None or c is None:
                 return
-            pl.setdefault(t, []).append(b.add_instruction(ir.Binop(a, op, c, next(names), _ty(t))) or b.instructions[-1])
+            opaque = (ir.Parameter, ir.Load, ir.FunctionCall, ir.Phi)
+            if op in ("/", "%", "<<", ">>") and not isinstance(c, opaque):
+                # never a value the constant folder can see through (UB constants crash the folder, see OPT_CRASH_SPECS)
+                alt = [v for v in pl.get(t, []) if isinstance(v, opaque) and not (safe and v is a)]
+                if not alt:
+                    return
+                c = rng.choice(alt)
+            if safe and a is c:
+                alt = [v for v in pl.get(t, []) if v is not a and (op not in ("/", "%", "<<", ">>") or isinstance(v, opaque))]
+                if not alt:
+                    return
+                c = rng.choice(alt)
+            b.add_instruction(ir.Binop(a, op, c, next(names), _ty(t)))
+            pl.setdefault(t, []).append(b.instructions[-1])
         elif kind == "unop":
             op = rng.choice("-~") if t[0] != "f" else "-"
             if not ok({"-": "NEG", "~": "INV"}[op] + T):
@@ -593,6 +661,8 @@ def random_module(spec):
             if not ok("ADD" + ptr):
                 return
             a, c = value(b, "ptr", pl), value(b, "ptr", pl)
+            if safe and a is c:
+                return
             b.add_instruction(ir.Binop(a, "+", c, next(names), ir.ptr))
             pl.setdefault("ptr", []).append(b.instructions[-1])
         elif kind == "call":
@@ -600,7 +670,7 @@ def random_module(spec):
             tys = tuple(rng.choice(types + ["ptr"]) for _ in range(n))
             r = rng.choice(types + [None])
             args = [value(b, x, pl) for x in tys]
-            if any(a is None for a in args):
+            if any(a is None for a in args) or (safe and len(set(map(id, args))) != len(args)):
                 return
             key = (tys, r)
             if key not in exts:
@@ -632,7 +702,7 @@ def random_module(spec):
         if not ok("CJMP" + _head_ty(ct, ptr)):
             continue
         a, c = value(cur, ct, pool), value(cur, ct, pool)
-        if a is None or c is None:
+        if a is None or c is None or (safe and a is c):
             continue
         cond = rng.choice(CONDS)
         if shape == "diamond":
@@ -657,7 +727,7 @@ def random_module(spec):
             if it is None or not ok("ADD" + it.upper()) or not ok("CJMP" + it.upper()):
                 continue
             init, step, lim = value(cur, it, pool), value(cur, it, pool), value(cur, it, pool)
-            if init is None or step is None or lim is None:
+            if init is None or step is None or lim is None or (safe and len({id(init), id(step), id(lim)}) < 3):
                 continue
             lp, ex = newblock(), newblock()
             pre = cur
@@ -802,13 +872,13 @@ def _work(job):
         return {"outcome": "harness-error", "signature": None, "msg": f"{type(e).__name__}: {e}"[:200], "trees": []}
 
 
-def run_jobs(jobs, workers=12):
+def run_jobs(jobs, workers=8):
     import concurrent.futures as cf
     import multiprocessing as mp
     if len(jobs) < 8:
         return [_work(j) for j in jobs]
     with cf.ProcessPoolExecutor(max_workers=workers, mp_context=mp.get_context("fork")) as ex:
-        return list(ex.map(_work, jobs, chunksize=16))
+        return list(ex.map(_work, jobs, chunksize=32))
 
 
 def depth_of(toks):
@@ -840,60 +910,72 @@ def corpus_jobs():
     jobs.append(("x86_64", {"k": "unop", "op": "-", "ty": "u8"}, 0))
     for c in CONDS:
         jobs.append(("thumb", {"k": "cjmp", "ty": "i32", "cond": c}, 0))
+    # optimizer crashes that stop compilation at opt level 2 (target independent; compiled for x86_64)
+    jobs += [("x86_64", s, 2) for s in OPT_CRASH_SPECS]
+    # ... or that leave a stale operand behind which the selection-graph builder then trips over
+    jobs += [(key, {"k": "dupcall"}, 2) for key in TARGETS]
     return jobs
 
 
-def evaluate(ctx, jobs, results, tag):
-    """compare every captured tree with the Lean model and evaluate the property on every compile"""
-    reqs, index = [], {}
-    for (key, spec, opt), res in zip(jobs, results):
-        for tr in res["trees"]:
-            rq = f"cover {key} {tr['toks']}"
-            if rq not in index:
-                index[rq] = len(reqs)
-                reqs.append(rq)
+def evaluate(ctx, groups, pre=()):
+    """groups = [(tag, jobs, results)].  One driver call: `pre` requests first, then one `cover` per distinct
+    captured tree.  Compares every tree with the Lean model and evaluates the property on every compile.
+    Returns the replies to `pre`."""
+    reqs, index = list(pre), {}
+    for _tag, jobs, results in groups:
+        for (key, spec, opt), res in zip(jobs, results):
+            for tr in res["trees"]:
+                rq = f"cover {key} {tr['toks']}"
+                if rq not in index:
+                    index[rq] = len(reqs)
+                    reqs.append(rq)
     replies = ctx.driver("C29", reqs) if reqs else []
-    for (key, spec, opt), res in zip(jobs, results):
-        case = {"target": key, "spec": spec, "opt": opt}
-        ctx.count("eval_compile_" + tag)
-        ctx.count(f"outcome_{res['outcome']}")
-        if res["outcome"] == "harness-error":
-            raise common.BrokenCheck(f"harness could not run {case}: {res['msg']}")
-        model_uncovered = False
-        for tr in res["trees"]:
-            ctx.count("eval_tree")
-            rq = f"cover {key} {tr['toks']}"
-            rep = replies[index[rq]]
-            mm = re.match(r"ok ws=(\d) wsr=(\d) cov=(\d)$", rep)
-            if not mm:
-                ctx.disagree("driver-reply", case, tr, rep)
-                continue
-            ws, wsr, cov = mm.groups()
-            skel = re.sub(r"/(\d+)/\S+", r"/\1", tr["toks"])
-            if depth_of(tr["toks"]) >= 2 or cov == "0":
-                ctx.nontrivial((key, tr["toks"]))
-            ctx.count("tree_covered" if cov == "1" else "tree_uncovered")
-            impl = tr["impl"]
-            if not ((impl == "1" and cov == "1") or (impl in ("0", "undefined") and cov == "0")):
-                ctx.disagree("labelling", {**case, "tree": tr["toks"]}, impl, rep)
-            if ws != "1":
-                ctx.disagree("alphabet: the real builder emitted a tree outside the regenerated alphabet",
-                             {**case, "tree": skel}, impl, rep)
-            if wsr == "1" and cov != "1":
-                ctx.disagree("theorem contradicted by the model itself", {**case, "tree": skel}, impl, rep)
-            if cov == "0":
-                model_uncovered = True
-        # table verdict vs outcome
-        not_cov = res["outcome"] == "internal-error" and ("not covered" in res["msg"] or "not defined" in res["msg"])
-        if model_uncovered != not_cov:
-            ctx.disagree("table verdict vs compile outcome", case, res["outcome"] + " " + res["msg"][:80],
-                         "uncovered tree" if model_uncovered else "all trees covered")
-        if res["outcome"] == "internal-error":
-            ctx.count("internal_error_" + res["signature"].split(":")[0])
-            ctx.fail(res["signature"], f"ir_to_object({key}, opt {opt}) on {spec_name(spec)}: {res['msg']}", case)
-        if len(ctx.samples) < 6 and res["trees"] and res["outcome"] == "ok" and spec["k"] in ("random", "alloc", "call"):
-            ctx.sample({"case": case if spec["k"] != "random" else {"target": key, "spec": "random seed %d" % spec["seed"], "opt": opt},
-                        "trees": [t["toks"] for t in res["trees"][:3]], "outcome": res["outcome"]})
+    for tag, jobs, results in groups:
+        for (key, spec, opt), res in zip(jobs, results):
+            evaluate_one(ctx, tag, key, spec, opt, res, replies, index)
+    return replies[: len(pre)]
+
+
+def evaluate_one(ctx, tag, key, spec, opt, res, replies, index):
+    case = {"target": key, "spec": spec, "opt": opt}
+    ctx.count("eval_compile_" + tag)
+    ctx.count(f"outcome_{res['outcome']}")
+    if res["outcome"] == "harness-error":
+        raise common.BrokenCheck(f"harness could not run {case}: {res['msg']}")
+    model_uncovered = False
+    for tr in res["trees"]:
+        ctx.count("eval_tree")
+        rep = replies[index[f"cover {key} {tr['toks']}"]]
+        mm = re.match(r"ok ws=(\d) wsr=(\d) cov=(\d)$", rep)
+        if not mm:
+            ctx.disagree("driver-reply", case, tr, rep)
+            continue
+        ws, wsr, cov = mm.groups()
+        skel = re.sub(r"/(\d+)/\S+", r"/\1", tr["toks"])
+        if cov == "0" or depth_of(tr["toks"]) >= 2:
+            ctx.nontrivial((key, tr["toks"]))
+        ctx.count("tree_covered" if cov == "1" else "tree_uncovered")
+        impl = tr["impl"]
+        if not ((impl == "1" and cov == "1") or (impl in ("0", "undefined") and cov == "0")):
+            ctx.disagree("labelling", {**case, "tree": tr["toks"]}, impl, rep)
+        if ws != "1":
+            ctx.disagree("alphabet: the real builder emitted a tree outside the regenerated alphabet",
+                         {**case, "tree": skel}, impl, rep)
+        if wsr == "1" and cov != "1":
+            ctx.disagree("theorem contradicted by the model itself", {**case, "tree": skel}, impl, rep)
+        if cov == "0":
+            model_uncovered = True
+    # table verdict vs outcome
+    not_cov = res["outcome"] == "internal-error" and ("not covered" in res["msg"] or "not defined" in res["msg"])
+    if model_uncovered != not_cov:
+        ctx.disagree("table verdict vs compile outcome", case, res["outcome"] + " " + res["msg"][:80],
+                     "uncovered tree" if model_uncovered else "all trees covered")
+    if res["outcome"] == "internal-error":
+        ctx.count("internal_error_" + res["signature"].split(":")[0])
+        ctx.fail(res["signature"], f"ir_to_object({key}, opt {opt}) on {spec_name(spec)}: {res['msg']}", case)
+    if len(ctx.samples) < 6 and res["trees"] and res["outcome"] == "ok" and spec["k"] in ("random", "alloc", "call"):
+        ctx.sample({"case": case if spec["k"] != "random" else {"target": key, "spec": "random seed %d" % spec["seed"], "opt": opt},
+                    "trees": [t["toks"] for t in res["trees"][:3]], "outcome": res["outcome"]})
 
 
 def spec_name(spec):
@@ -903,11 +985,40 @@ def spec_name(spec):
 
 
 def check(ctx):
-    import logging
-    logging.getLogger("verifier").setLevel(logging.ERROR)
-    # ---- 1. translation cross-check: Lean recomputes the heads without witness from the same tables ----------
+    import time
+    t0 = time.time()
+    phases = {}
+
+    def lap(name):
+        nonlocal t0
+        phases[name] = round(time.time() - t0, 1)
+        t0 = time.time()
     info = {k: extract(k) for k in TARGETS}
-    reps = ctx.driver("C29", [x for k in TARGETS for x in (f"tables {k}", f"failing {k}")])
+    # ---- corpus + the (target, op, type) matrix at opt 0 and 2 (quick: opt 2 for a seeded quarter) ----------------
+    jobs = corpus_jobs()
+    for k in TARGETS:
+        for spec in info[k]["specs"]:
+            jobs.append((k, spec, 0))
+            if ctx.thorough or ctx.rng.random() < 0.25:
+                jobs.append((k, spec, 2))
+    # ---- random structured functions -----------------------------------------------------------------------------------
+    n = 400 if ctx.thorough else 40
+    rjobs = []
+    for k in TARGETS:
+        d = info[k]
+        ptr = str(d["arch"].info.type_infos["ptr"]).upper()
+        for i in range(n):
+            free = i % 8 == 7  # one in eight ignores the exclusion list (will mostly hit known findings)
+            spec = {"k": "random", "seed": ctx.rng.getrandbits(32), "types": d["types"], "ptr": ptr, "safe": True,
+                    "avoid": [] if free else d["excluded"], "size": ctx.rng.choice([4, 8, 16, 30])}
+            rjobs.append((k, spec, ctx.rng.choice([0, 2])))
+    allres = run_jobs(jobs + rjobs)
+    results, rresults = allres[: len(jobs)], allres[len(jobs):]
+    lap("compile")
+    pre = [x for k in TARGETS for x in (f"tables {k}", f"failing {k}")]
+    reps = evaluate(ctx, [("matrix", jobs, results), ("random", rjobs, rresults)], pre)
+    lap("model")
+    # ---- translation cross-check: Lean recomputes the heads without witness from the same tables ----------------
     for i, k in enumerate(TARGETS):
         d = info[k]
         want = f"ok rules={len(d['sys'].rules)} sig={len(d['sig'])} sigR={len(d['witness'])} excluded={len(d['excluded'])}"
@@ -926,30 +1037,10 @@ def check(ctx):
                                           "irdag_errors": [spec_name(s) + " -> " + e for s, e in d["build_errors"]]}
         for s, e in d["build_errors"]:
             ctx.note(f"{k}: SelectionGraphBuilder raised {e} on {spec_name(s)}")
-    # ---- 2. corpus + the (target, op, type) matrix at opt 0 and 2 ---------------------------------------------
-    jobs = corpus_jobs()
-    for k in TARGETS:
-        for spec in info[k]["specs"]:
-            for opt in (0, 2):
-                jobs.append((k, spec, opt))
-    results = run_jobs(jobs)
-    evaluate(ctx, jobs, results, "matrix")
-    # ---- 3. random structured functions ----------------------------------------------------------------------------
-    n = 400 if ctx.thorough else 40
-    rjobs = []
-    for k in TARGETS:
-        d = info[k]
-        ptr = str(d["arch"].info.type_infos["ptr"]).upper()
-        for i in range(n):
-            free = i % 8 == 7  # one in eight ignores the exclusion list (will mostly hit known findings)
-            spec = {"k": "random", "seed": ctx.rng.getrandbits(32), "types": d["types"], "ptr": ptr,
-                    "avoid": [] if free else d["excluded"], "size": ctx.rng.choice([4, 8, 16, 30])}
-            rjobs.append((k, spec, ctx.rng.choice([0, 2])))
-    rresults = run_jobs(rjobs)
-    evaluate(ctx, rjobs, rresults, "random")
     ctx.extra_cov["exhaustive"] = False
     ctx.extra_cov["matrix_cases"] = len(jobs)
     ctx.extra_cov["random_cases"] = len(rjobs)
+    ctx.extra_cov["phase_seconds"] = phases
 
 
 def search(ctx):
@@ -965,4 +1056,4 @@ def search(ctx):
 def replay(ctx, rp):
     case = rp.get("case") or rp
     jobs = [(case["target"], case["spec"], case["opt"])]
-    evaluate(ctx, jobs, [_work(j) for j in jobs], "replay")
+    evaluate(ctx, [("replay", jobs, [_work(j) for j in jobs])])
